@@ -16,6 +16,9 @@ GUARD = 'GLOM_VERIF'   # reserved guard name for in-source hooks (none exist)
 _bound = False
 
 
+_LAYOUT_JUNK = []
+
+
 def bind():
     """Make `import glom` resolve to SRC and return the module."""
     global _bound
@@ -28,6 +31,10 @@ def bind():
             if name == 'glom' or name.startswith('glom.'):
                 del sys.modules[name]
         _bound = True
+        # (C11 / C12 ask some questions in fresh interpreters whose heaps are laid out differently: class objects allocated
+        # right before the library creates its own shift the addresses of the library's classes)
+        k = int(os.environ.get('RV_LAYOUT_PERTURB', '0') or 0)
+        _LAYOUT_JUNK.extend(type('Junk%d' % i, (object,), {'__slots__': tuple('s%d' % j for j in range(i % 5))}) for i in range(k))
     import glom
     got = os.path.abspath(glom.__file__)
     if not got.startswith(SRC + os.sep):
